@@ -218,9 +218,9 @@ func gen(t *rapid.T) Case {
 		f := files[rapid.IntRange(0, len(files)-1).Draw(t, "file")]
 		return Case{Src: corpus.Mutate(t, f.Data, rapid.IntRange(0, 3).Draw(t, "nmut"), files), Kind: "corpus-mutation"}
 	case k < 8:
-		g := &pgen.G{T: t, Tier: 2}
+		g := &pgen.G{T: t, Tier: 2, F: pgen.FRefTypes | pgen.FListComp | pgen.FConflict | pgen.FStructDisj | pgen.FSelectors}
 		w := pgen.GenStructW(t, 2)
-		st := g.StructLit(w, nil, rapid.Bool().Draw(t, "concrete"), true)
+		st := g.Program(w, rapid.Bool().Draw(t, "concrete"))
 		src := []byte(st.Body())
 		return Case{Src: corpus.Mutate(t, src, rapid.IntRange(0, 2).Draw(t, "nmut"), files), Kind: "generated-program"}
 	default:
